@@ -567,6 +567,15 @@ func (l *lane) concretise(d dgram, g []byte, req *ntp.Packet, il bool, stale ntp
 		if l.rng.Intn(3) == 0 {
 			cut = len(b) - 1 - l.rng.Intn(4)
 		}
+		// The decoder zero-fills what a short datagram is missing: if every removed byte is
+		// zero anyway (trailing zero bytes of the ciphertext, 1 in 256 for a one-byte cut;
+		// padding), the "truncated" datagram reconstructs to the authentic one, verifies
+		// under the S2C key and is rightly accepted - a fresh-sandbox run alarmed on exactly
+		// that.  Truncation here means that something is really lost: at least one removed
+		// byte is non-zero.
+		for cut > authPos+1 && allZero(b[cut:]) {
+			cut--
+		}
 		how = fmt.Sprintf("truncated:%d/%d", cut-authPos, len(b)-authPos)
 		b = b[:cut]
 	default:
@@ -720,4 +729,13 @@ func TestC05Nts(t *testing.T) {
 	if nrun == 0 {
 		t.Fatal("no realisable case")
 	}
+}
+
+func allZero(b []byte) bool {
+	for _, x := range b {
+		if x != 0 {
+			return false
+		}
+	}
+	return true
 }
